@@ -22,7 +22,11 @@ type yieldSite struct {
 	Negate   bool // condition is !yield(...)
 }
 
-func checkC19(ctx *Ctx) *Result {
+func checkC19(ctx *Ctx) *Result { return checkC19x(ctx, true) }
+
+// checkC19x: withC05 is false when C05 itself asks for the traversal rules
+// (C19 shares C05's decision tables; the share graph must stay acyclic).
+func checkC19x(ctx *Ctx, withC05 bool) *Result {
 	r := newResult("C19")
 	r.Explanation = "Decided for every error tree and every break position, on the control-flow graph (go/cfg, where range-over-func bodies are ordinary loop bodies and `return` leaves the literal) and the type-checked syntax of the function literal returned by cfgerrors.All: (R19.1, typestate) every call of yield is the condition of a branch whose `yield returned false` edge reaches the literal's exit without passing another yield, a recursive All or a loop head — so no value is produced after the consumer stopped, at any nesting depth, by induction on the recursion; (R19.2) yield is applied either to the error being flattened itself, outside any loop and only when it is not a join (type-switch default), or to the iteration variable of a range over All(child) where child is the iteration value of a range over the join's Unwrap(); in the innermost body around each yield every path from the body's entry to its end passes exactly one yield, and the join/leaf dispatch sends every error to exactly one of the two; (R19.3) the module defines no Unwrap() error method and never wraps errors (fmt.Errorf, %w), and nil is never appended to a joined list (L0), so the leaves of the tree are exactly the constructed violations."
 	r.NotDecided = "runtime behaviour of errors.Join and of range-over-func is taken from the language/library specification; stack depth on absurdly deep trees"
@@ -1031,7 +1035,11 @@ func checkC19(ctx *Ctx) *Result {
 		r.rule("R4.6", "pattern predicates: IsDeemedInsecure and HostIsEffectiveTLD compute the documented truth tables", 2)
 		patternPredicates(ctx, r, "R4.6")
 		// ... and constructed exactly where the documentation names a violation
-		r.share(checkC05(ctx), map[string]string{"R5.1": "decision-table equality: on every per-element path of every validator the errors constructed are the documented ones, no more (a spurious second error) and no fewer (a name that is skipped)"}, nil)
+		r.rule("R4.4", "deny tables: the forbidden / prohibited / safelisted name predicates are exactly the documented tables and prefixes (a narrower predicate loses a violation, and with it a yielded error)", 3)
+		denyTables(ctx, r, "R4.4")
+		if withC05 {
+			r.share(checkC05(ctx), map[string]string{"R5.1": "decision-table equality: on every per-element path of every validator the errors constructed are the documented ones, no more (a spurious second error) and no fewer (a name that is skipped)"}, nil)
+		}
 	} else {
 		r.undecided("R19.3", "L0", strings.Join(vf.Problems, "; "))
 	}
